@@ -18,7 +18,7 @@
     reference lexer only reports user-level kinds). *)
 From Coq Require Import NArith List Bool Lia.
 From SasLexer Require Import Gen.TokenType Gen.ErrorKind Gen.Channel Model.Base Model.Core Model.Lexer3 Spec.RefLex
-     Proofs.Generic Proofs.NoPanic Proofs.SemiProgram Proofs.RefLexErrors Proofs.OcBase Proofs.OcWhole Proofs.OcAll.
+     Proofs.Generic Proofs.NoPanic Proofs.SemiProgram Proofs.RefLexErrors Proofs.OcBase Proofs.OcWhole Proofs.OcAll Proofs.MacroFree.
 Import ListNotations.
 Open Scope N_scope.
 
@@ -52,27 +52,7 @@ Theorem C01_macro_free_total : forall msep src, macro_free (body_of src) = true 
   s_iters (lr_end r) <= 2 * len src /\
   (List.length (b_toks (lr_buffer r)) <= 3 * List.length src + 4)%nat /\
   (List.length (lr_errors r) <= 2 * List.length src + 2)%nat.
-Proof.
-  intros msep src H. pose proof (lex_is_reflex_macro_free msep src H) as G. cbv zeta in G |- *.
-  pose proof (reflex_errs_user src) as U. pose proof (reflex_counts src) as Cn.
-  destruct (reflex src) as [[T E] lit]. cbn [fst snd] in U.
-  destruct G as (G1 & G2 & G3 & G4 & _ & G6 & _ & G8). destruct Cn as [Ct Ce].
-  split; [exact G1|]. split; [exact G6|]. split; [exact G2|].
-  assert (K : map e_kind (lr_errors (lex (mkCfg false msep) src)) = map re_kind E).
-  { pose proof (f_equal (map fst) G4) as K. rewrite !map_map in K. exact K. }
-  split.
-  { revert K. generalize (lr_errors (lex (mkCfg false msep) src)) as L. clear -U.
-    induction U as [|e es He _ IH]; intros [|x L] K; cbn [map] in K; try discriminate; constructor.
-    - injection K as K1 _. rewrite K1. apply user_not_internal. exact He.
-    - injection K as _ K2. apply IH. exact K2. }
-  split.
-  { assert (Hb : len (body_of src) <= len src).
-    { unfold body_of, split_bom, len. destruct src as [|c r]; [cbn; lia|]. destruct (c =? BOM); cbn [snd List.length]; lia. }
-    lia. }
-  split.
-  - pose proof (f_equal (@List.length _) G3) as L. rewrite !map_length in L. lia.
-  - pose proof (f_equal (@List.length _) K) as L. rewrite !map_length in L. lia.
-Qed.
+Proof. exact mf_C01_macro_free_total. Qed.
 Print Assumptions C01_macro_free_total.
 
 (** the premise is satisfiable *)
